@@ -20,6 +20,7 @@ mod run;
 mod stats;
 mod supervise;
 mod tok;
+mod zexec;
 
 use std::collections::HashMap;
 use std::process::Command;
@@ -135,9 +136,12 @@ fn cov_json(st: &Stats) -> (J, usize, usize, usize, usize, usize, usize) {
         tot_can += c.n_cancelled();
         tot_tr += c.n_trans();
         let (ch, ct) = c.core_transitions();
+        let by = c.core_transitions_by_op();
+        let by_s = format!("next {}/{}, next_back {}/{}, len|size_hint {}/{}, observe {}/{}, drop {}/{}", by[0].0, by[0].1, by[1].0, by[1].1, by[2].0, by[2].1, by[3].0, by[3].1, by[4].0, by[4].1);
         core_hit += ch;
         core_total += ct;
         rows.push(J::obj(vec![
+            ("core_transitions_by_op", J::s(by_s)),
             ("core_transitions_executed", J::i(ch as i64)),
             ("core_transitions_total", J::i(ct as i64)),
             ("container", J::s(kind_name(k))),
@@ -355,7 +359,8 @@ fn cmd_check_inner(m: &HashMap<String, String>) -> i32 {
         ("runs_faulty_class", J::i(st.runs_faulty as i64)),
         ("runs_with_wide_element", J::i(st.runs_wide as i64)),
         ("runs_with_nodrop_element", J::i(st.runs_plain as i64)),
-        ("element_shapes", J::s("Tok: 8 bytes, align 4, drop glue (5/8 of vector runs, all matrix runs); Wide16: 16 bytes, align 16, padding in front of the payload, drop glue (2/8); PlainNoDrop: 8 bytes, no drop glue, so mem::needs_drop::<T>() is false (1/8; order, length, aliasing and read-after-yield are checked, drop accounting is not observable)")),
+        ("runs_with_zero_sized_element", J::i(st.runs_zst as i64)),
+        ("element_shapes", J::s("Tok: 8 bytes, align 4, drop glue (5/8 of vector runs, all matrix runs); Wide16: 16 bytes, align 16, padding in front of the payload, drop glue (2/8); PlainNoDrop: 8 bytes, no drop glue, so mem::needs_drop::<T>() is false (1/8; order, length, aliasing and read-after-yield are checked, drop accounting is not observable); ZstDrop: zero-sized with drop glue (1/16 of vector runs, taken from the Tok share; counting oracle: created - destroyed - forgotten == owned, len/size_hint, yields)")),
         ("simulated_steps_executed", J::i(st.ops_exec as i64)),
         ("simulated_steps_skipped_precondition", J::i(st.ops_skipped as i64)),
         ("simulated_time_note", J::s("vek has no clock; simulated time is the number of simulator steps (operations executed)")),
